@@ -1,6 +1,7 @@
 package main
 
 import (
+	"regexp"
 	"fmt"
 	"go/ast"
 	"go/token"
@@ -17,6 +18,7 @@ namespace GoUtils.Generated.Hash
 open GoUtils.Hash
 def ok : Bool := false
 def skeleton : CalcFacts := default
+def freshStatePerHasher : Bool := false
 end GoUtils.Generated.Hash
 `
 
@@ -103,8 +105,40 @@ func extractHash(root string) (string, map[string]any, error) {
 	if deferred {
 		resetOnError, resetAfter = true, true
 	}
+	// every hasher object owns its state: the constructors of the underlying hashes are called inside
+	// NewHashingAlgorithm (one call per algorithm) and no package-level variable holds a hash state
+	ctors := []string{"md5.New()", "sha1.New()", "sha256.New()", "blake2b.New256(nil)", "xxhash.New64()", "murmur3.New64()"}
+	fresh := true
+	nh := p.funcDecl("NewHashingAlgorithm")
+	if nh == nil {
+		return "", nil, fmt.Errorf("NewHashingAlgorithm not found")
+	}
+	nhSrc := norm(p.src(nh.Body))
+	for _, c := range ctors {
+		if !strings.Contains(nhSrc, c) {
+			fresh = false
+		}
+	}
+	for _, f := range p.files {
+		for _, d := range f.Decls {
+			gd, ok := d.(*ast.GenDecl)
+			if !ok || gd.Tok != token.VAR {
+				continue
+			}
+			for _, sp := range gd.Specs {
+				vs, ok := sp.(*ast.ValueSpec)
+				if !ok {
+					continue
+				}
+				decl := norm(p.src(vs))
+				if strings.Contains(decl, "hash.Hash") || regexp.MustCompile(`\b(md5|sha1|sha256|sha512|blake2b|xxhash|murmur3)\.New`).MatchString(decl) {
+					fresh = false
+				}
+			}
+		}
+	}
 	lean := fmt.Sprintf("import GoUtils.Model.Hash\nnamespace GoUtils.Generated.Hash\nopen GoUtils.Hash\ndef ok : Bool := true\n"+
-		"def skeleton : CalcFacts := { resetBefore := %s, resetOnError := %s, resetAfter := %s }\nend GoUtils.Generated.Hash\n",
-		leanBool(resetBefore), leanBool(resetOnError), leanBool(resetAfter))
-	return lean, map[string]any{"resetBefore": resetBefore, "resetOnError": resetOnError, "resetAfter": resetAfter}, nil
+		"def skeleton : CalcFacts := { resetBefore := %s, resetOnError := %s, resetAfter := %s }\ndef freshStatePerHasher : Bool := %s\nend GoUtils.Generated.Hash\n",
+		leanBool(resetBefore), leanBool(resetOnError), leanBool(resetAfter), leanBool(fresh))
+	return lean, map[string]any{"resetBefore": resetBefore, "resetOnError": resetOnError, "resetAfter": resetAfter, "freshStatePerHasher": fresh}, nil
 }
